@@ -17,7 +17,7 @@ Definition stat_safe (rf : rec_fns) (sf : sps_fns) (m : mmsg) : Prop :=
   (forall v sps q, rf_hevc_parse_enh rf (mm_pay m) = Ok (v, sps, q) -> is_ok (sf_hevc_dims sf sps)).
 
 Definition fx_all_ok (fx : fixes) : Prop :=
-  fx_msg_ok fx /\ fx_tsidx fx = true /\ fx_rtspidx fx = true /\ fx_dummy fx = true /\ fx_bound fx = true.
+  fx_msg_ok fx /\ fx_tsidx fx = true /\ fx_rtspidx fx = true /\ fx_dummy fx = true /\ fx_bound fx = true /\ fx_addflag fx = true.
 
 (* Group.feedRtpPacket with the fixed boundary classifiers is total *)
 Lemma avc_boundary_total b : is_ok (NetRtpHeader.is_avc_boundary true b).
@@ -52,12 +52,11 @@ Proof.
   destruct (NetChkProofs.idx_ok NetChk.s_hevcbound_index b 2) as [b2 ->]; [lia|]. apply ok.
 Qed.
 
-Lemma rtp_boundary_ok fx kind video body : fx_bound fx = true -> is_ok (rtp_boundary fx kind video body).
+Lemma rtp_boundary_ok fx kind body : fx_bound fx = true -> is_ok (rtp_boundary fx kind body).
 Proof.
   intro F. unfold rtp_boundary. rewrite F. destruct (kind =? 1).
-  - destruct (negb video); [eexists; reflexivity|]. destruct (avc_boundary_total body) as [v ->]. eexists; reflexivity.
-  - destruct (kind =? 2); [|eexists; reflexivity]. destruct (negb video); [eexists; reflexivity|].
-    destruct (hevc_boundary_total body) as [v ->]. eexists; reflexivity.
+  - destruct (avc_boundary_total body) as [v ->]. eexists; reflexivity.
+  - destruct (kind =? 2); [|eexists; reflexivity]. destruct (hevc_boundary_total body) as [v ->]. eexists; reflexivity.
 Qed.
 
 Lemma feed_rtp_ok fx wk sdp subs body : fx_bound fx = true -> is_ok (feed_rtp fx wk sdp subs body).
@@ -65,7 +64,9 @@ Proof.
   intro F. unfold feed_rtp. destruct (negb wk); [eexists; reflexivity|].
   destruct (existsb _ subs); [|eexists; reflexivity].
   destruct sdp as [[v k]|]; [|eexists; reflexivity].
-  destruct (rtp_boundary_ok fx k (fst body) (snd body) F) as [b ->]. eexists; reflexivity.
+  unfold rtp_gate. destruct ((k =? 1) || (k =? 2)); [|eexists; reflexivity].
+  destruct (fst body); [|eexists; reflexivity].
+  destruct (rtp_boundary_ok fx k (snd body) F) as [b ->]. eexists; reflexivity.
 Qed.
 
 Lemma feed_rtp_all_ok fx wk sdp l : forall subs, fx_bound fx = true -> is_ok (feed_rtp_all fx wk sdp subs l).
@@ -91,7 +92,6 @@ Variable c : grp_cfg.
 Hypothesis FX : fx_all_ok fx.
 Hypothesis CF : cf_safe cf.
 Hypothesis RF : rf_safe rf.
-Hypothesis ADD : gc_add c = false.
 
 Let FM : fx_msg_ok fx := proj1 FX.
 
@@ -185,8 +185,8 @@ Lemma bc_rtsp_ok g m : rtsp_inv (g_rtsp g) ->
   exists r x, bc_rtsp fx rf acfg c g m = Ok (r, x) /\ rtsp_inv r.
 Proof.
   intros Hi. unfold bc_rtsp. destruct (gc_rtsp c); [|do 2 eexists; split; [reflexivity|exact Hi]].
-  pose proof FX as (_ & _ & FR & _ & FB). rewrite ADD.
-  destruct (rtsp_feed_ok fx rf acfg FM FR RF (g_rtsp g) m Hi) as (r & ev & -> & Hr). cbn [bind].
+  pose proof FX as (_ & _ & FR & _ & FB & FA).
+  destruct (rtsp_feed_ok fx rf acfg FM FR FA RF (gc_add c) (g_rtsp g) m Hi) as (r & ev & -> & Hr). cbn [bind].
   destruct (rtsp_events_ok fx (gc_rtsp_wait c) ev (g_sdp g) (g_rsubs g) FB) as [x ->]. cbn [bind].
   do 2 eexists. split; [reflexivity|exact Hr].
 Qed.
@@ -232,7 +232,7 @@ Lemma on_read_ok g m :
 Proof.
   intros Hi Hs Hts. unfold on_read. destruct (gc_dummy c) as [wait|].
   - destruct Hi as (Hi1 & Hi2 & Hi3 & Hi4).
-    pose proof FX as ((F1 & F2 & _) & _ & _ & FD & _).
+    pose proof FX as ((F1 & F2 & _) & _ & _ & FD & _ & _).
     destruct (dummy_feed_ok (stat_safe rf sf) (fun ts => proj1 (GEN ts)) (fun ts => proj2 (GEN ts)) fx F1 F2 FD wait (g_dummy g) m Hi3 Hi4 Hts Hs)
       as (outs & d' & -> & Ho & _ & Hd1 & Hd2).
     cbn [bind].
